@@ -814,3 +814,29 @@ Proof.
   apply dec_obj_enc. exact Ho.
 Qed.
 End Text.
+
+(* ================================================================== the C16 statements *)
+Lemma c16_tree_roundtrip : forall (T : Type) (H : Num T), (forall x : T, neqb x x = true) ->
+  forall o : obj T, ok_obj o -> from_json_model (enc_obj o) = Ok o /\ obj_eqb o o = true.
+Proof. intros T H R o Ho. split; [apply dec_obj_enc; auto | apply obj_eqb_refl; auto]. Qed.
+Lemma c16_direct : forall (T : Type) (H : Num T) (o : obj T), ok_obj o ->
+  dec_payload rebuild_named_expect rebuild_fx_expect (Z.to_nat (kind_of o)) (enc_payload o) = Ok o.
+Proof. intros. apply dec_payload_enc; auto. Qed.
+Lemma c16_named_norm : forall s n, named_try_new s = Ok n ->
+  n_name n = lower s /\ named_try_new (n_name n) = Ok n.
+Proof.
+  intros s n E. split; [|exact (named_try_new_ok_named s n E)].
+  destruct (named_is_union s n E) as [Hn _]. exact Hn.
+Qed.
+Lemma c16_fx_norm : forall (T : Type) (H : Num T) (f : jfx T) (a : numarr T) (qs : list (fxrate T)) base,
+  enc_fx (mkJFx (jf_rates f) (jf_ccys f) a) = enc_fx f /\
+  (qs <> [] -> ccy_index qs (Some (hd [] (ccy_index qs base))) = ccy_index qs base).
+Proof. intros. split; [reflexivity | apply ccy_index_rebase]. Qed.
+Lemma c16_example : forall (T : Type) (H : Num T),
+  let d := ODual (mkDual n1 [s2n "x"%string; s2n "y"%string] [n0; n1]) in
+  ok_obj d /\ from_json_model (enc_obj d) = Ok d.
+Proof.
+  intros T H d. assert (O : ok_obj d).
+  { split; [apply nodup_closed; reflexivity | unfold fits, u64_max; cbn; lia]. }
+  split; [exact O | apply dec_obj_enc; exact O].
+Qed.
